@@ -71,7 +71,7 @@ def run(prop, tier):
             for m, d in out["drift"]:
                 v.model_drift(m, f"[{be}] {d}")
         per_backend[be] = n_be
-    if tot["stub_calls"] < 2 * tot["calls"] or tot["calls"] == 0:
+    if not v.violations and not v.known_hits and (tot["stub_calls"] < 2 * tot["calls"] or tot["calls"] == 0):
         raise Machinery("C07 replay: the substituted test statistic was not consumed by AsymptoticCalculator.teststatistic")
     if tot["seam"] == 0 or tot["branch2"] == 0 or tot["capped"] == 0:
         raise Machinery(f"C07 replay is vacuous: seam={tot['seam']} branch2={tot['branch2']} capped={tot['capped']}")
